@@ -373,6 +373,7 @@ def _class_key(op, tags, kind):
 class _Ctx:
     def __init__(self, mon, case):
         self.mon, self.case, self.default = mon, case, case["default"]
+        self.no_containment = None  # reason why the result's declared shape is not judged against its stored coordinates
 
 
 def _root(x):
@@ -408,6 +409,41 @@ def _call(ctx, op, desc, fn, *a, tags=(), **k):
         return False, None
 
 
+def _inside(c, s):
+    """Coordinate `c` lies inside shape `s` (int in [0, s); tuples component-wise); None = not comparable."""
+    if isinstance(c, bool) or isinstance(s, bool):
+        return None
+    if isinstance(c, int) and isinstance(s, int):
+        return 0 <= c < s
+    if isinstance(c, tuple) and isinstance(s, tuple) and len(c) == len(s):
+        rs = [_inside(a, b) for a, b in zip(c, s)]
+        return None if any(r is None for r in rs) else all(rs)
+    return None
+
+
+def _outside_declared_shape(t):
+    """Raw well-formedness of a tensor against its own declaration: stored coordinates (read from the raw lists of
+    the tree, by depth) that lie outside the shape the tensor itself declares as authoritative for that rank.
+    Ranks whose shape is only estimated, absent, or not comparable with the coordinates are not judged."""
+    shapes = []
+    for rk in t.ranks:
+        a = rk._attrs.__dict__
+        shapes.append(a.get("_shape") if a.get("_estimated_shape") is False else None)
+    bad = []
+    level = [((), t.__dict__.get("_root"))]
+    for i, sh in enumerate(shapes):
+        nxt = []
+        for path, f in level:
+            if not isinstance(f, Fiber):
+                continue
+            for c, p in zip(f.coords, f.payloads):
+                if sh is not None and _inside(c, sh) is False:
+                    bad.append((i, path + (c,), sh))
+                nxt.append((path + (c,), p))
+        level = nxt
+    return bad, sum(1 for sh in shapes if sh is not None)
+
+
 def _judge(ctx, op, desc, res, expected, clause="content", style=None, tags=(), alt=None, ctags=(), cls_op=None):
     """WF / RC of a result and its content (read with the operand's default) against the expected map.
     `tags` qualify WF/RC keys (and the content key of a malformed result), `ctags` the content key;
@@ -437,6 +473,22 @@ def _judge(ctx, op, desc, res, expected, clause="content", style=None, tags=(), 
                           f"rank bookkeeping of the result of {desc} does not mirror its tree ({kinds}): " + "; ".join(probs[:3]))
         else:
             mon.count("oracle_evals")
+        if wfp:
+            pass
+        elif ctx.no_containment:
+            mon.count("containment_not_judged:" + ctx.no_containment)
+        else:
+            bad, nranks = _outside_declared_shape(res)
+            if nranks:
+                mon.count("containment_checked")
+            if bad:
+                ok = False
+                i, pt, sh = bad[0]
+                mon.violation(_key([op, "WF", "coordinate-outside-declared-shape"]),
+                              f"result of {desc} stores {len(bad)} coordinate(s) outside the shape it declares as authoritative, "
+                              f"e.g. rank {i} ({res.ranks[i].getId()}) declares {sh} and stores {pt}")
+            elif nranks:
+                mon.count("oracle_evals")
     root = _root(res)
     if not isinstance(root, Fiber):
         mon.violation(f"{op}:result-type", f"{desc} returned a tensor whose root is {type(root).__name__}")
@@ -500,6 +552,12 @@ def _operand(ctx, mode, need_shape=False):
         stored = spec_of(_root(x))
     else:
         c0, stored = seen, case["spec"]
+    if isinstance(x, Tensor) and _outside_declared_shape(x)[0]:
+        ctx.no_containment = "operand-outside-its-declared-shape"       # not generated (assumption 1)
+    elif _stale_tag(x):
+        # TEMPORARY guard pending decision: a *Below-style transform (e.g. Tensor.swapRanks(depth>0)) of a tensor whose
+        # estimated shape is stale declares that stale estimate as authoritative on the ranks it does not touch
+        ctx.no_containment = TAG_STALE
     if stored != gen.canonical_spec(stored, default):
         ctx.mon.count("dirty_inputs")
     if not c0:
@@ -588,6 +646,11 @@ def _run_swap(ctx):
     perm[d], perm[d + 1] = perm[d + 1], perm[d]
     if mode == "tensor":
         t, c0, stored = _operand(ctx, "tensor")
+        if any(not gen.content_of_spec(f, ctx.default) for f in _fibers_at(stored, d)):
+            # TEMPORARY guard pending decision: a swap leaves a content-empty sub-tree at its depth (a zero-length fiber
+            # included) as it is - content is unaffected, but its explicit defaults / empty fibers / shape attributes
+            # keep the old rank order in the result
+            ctx.no_containment = ctx.no_containment or "swap-leaves-content-empty-subtree-unswapped"
         exp = _img_perm(c0, perm)
         op, desc = "Tensor.swapRanks", f"Tensor.swapRanks(depth={d})"
         ok, r = _call(ctx, op, desc, t.swapRanks, depth=d)
@@ -698,6 +761,10 @@ def _run_merge(ctx):
     case, mon, default = ctx.case, ctx.mon, ctx.default
     d, l, style, mode, D, fn = case["d"], case["l"], case["style"], case["mode"], case["depth"], case["fn"]
     x, c0, stored = _operand(ctx, mode)
+    if style == "relative":
+        # TEMPORARY guard pending decision: a `relative` merge of independent ranks declares the shape of the upper rank
+        # (documented: [S0 .. SN] -> S0) although the summed coordinates reach S0 + .. + SN - N - 1
+        ctx.no_containment = "relative-merge-of-independent-ranks"
     groups = _img_flatten(c0, d, l, style, None)
     exp = {}
     ncoll = 0
@@ -787,6 +854,10 @@ def _run_updcoords(ctx):
     if case.get("new_shape"):
         kw["new_shape"] = case["new_shape"]
     x, c0, stored = _operand(ctx, mode, need_shape=True)
+    if not kw:
+        # without new_shape the rank keeps its shape: that the new coordinates fit it is the caller's claim, and none of
+        # the generated coordinate functions maps range(shape) into itself
+        ctx.no_containment = "updateCoords-without-new_shape"
     exp = {pt[:d] + (g(pt[d]),) + pt[d + 1:]: v for pt, v in c0.items()}
     if mode == "tensor":
         op, desc = "Tensor.updateCoords", f"Tensor.updateCoords({fn}, depth={d}, {kw})"
